@@ -68,10 +68,13 @@ def explore(ctx):
         import itertools
         for c in itertools.chain(
                 LC.gen_cases(ctx, ctx.budget(500, 12000), mutate_p=0.0, prop='C04', model_filter=has_open),
-                LC.alias_across_types(ctx, ctx.budget(40, 800))):
+                LC.alias_across_types(ctx, ctx.budget(40, 800)),
+                LC.untyped_regions(ctx, ctx.budget(200, 4000)),
+                LC.class_key_faults(ctx, ctx.budget(150, 3000))):
             # inject 1-3 tags
             doc = c.doc
-            if doc is not None and ctx.rng.random() < 0.75 and not (c.desc and c.desc[0] == 'alias-across-types'):
+            if doc is not None and ctx.rng.random() < 0.75 and not (
+                    c.desc and c.desc[0] in ('alias-across-types', 'untyped-region', 'class-key-fault')):
                 k = ctx.rng.randint(1, 3)
                 descs = []
                 for _ in range(k):
